@@ -17,9 +17,13 @@ import os
 import traceback
 from dataclasses import dataclass
 
+from ipv8.attestation.communication_manager import CommunicationChannel
+from ipv8.attestation.default_identity_formats import FORMATS
 from ipv8.attestation.identity.community import IdentityCommunity, IdentitySettings
 from ipv8.attestation.identity.manager import IdentityManager
 from ipv8.attestation.identity.metadata import Metadata
+from ipv8.attestation.wallet.bonehexact.algorithm import BonehExactAlgorithm
+from ipv8.attestation.wallet.community import AttestationCommunity, AttestationSettings
 from ipv8.attestation.identity.payload import (
     AttestPayload,
     DisclosePayload,
@@ -45,6 +49,26 @@ REQ_EXTRA = [None, EXTRA, {"k": "v", "role": "admin"}]
 # hand-crafted dishonest disclosures of D: what is wrong with the disclosure x which attestations ride along
 DIS_DEFECTS = ["forged-token-signature", "token-of-another-key", "altered-metadata-signature"]
 DIS_ATTS = ["none", "valid-last", "forged-first-valid-last"]
+# consent route (b): the subject asks through its CommunicationChannel, the attester's user accepts the outstanding request
+CH_NAME = "n1"
+CH_FORMAT = "id_metadata"
+CH_REQUEST_MD = [{}, EXTRA]                                   # metadata of the request the attester's user is shown
+CH_SWAP_MD = [{}, EXTRA, {"k": "v", "role": "admin"}]         # what a dishonest subject advertises instead
+SHA1_PAD = b"SHA-1" + bytes(7)                                # documented padding of 20-byte attribute hashes
+
+_CHANNEL_KEY = None
+
+
+def channel_key():  # noqa: ANN201
+    """
+    One Boneh secret key per process for all channel requests (key generation costs ~0.2 s and is not what is explored).
+    Generated under a fixed seed, outside any world, before workers fork.
+    """
+    global _CHANNEL_KEY
+    if _CHANNEL_KEY is None:
+        seams.reseed(("c17-channel-key",))
+        _CHANNEL_KEY = BonehExactAlgorithm(CH_FORMAT, FORMATS).generate_secret_key()
+    return _CHANNEL_KEY
 FAKE_POINTER = bytes([0xFA]) * 32
 PAYLOADS = {1: DisclosePayload, 2: AttestPayload, 3: RequestMissingPayload, 4: MissingResponsePayload}
 KIND = {1: "disclose", 2: "attest", 3: "request-missing", 4: "missing-response"}
@@ -109,6 +133,17 @@ class W:
                     self.ov[a].network.add_verified_peer(Peer(self.ov[b].my_peer.public_key.key_to_bin(),
                                                               self.sim.nodes[b].address))
         self.key = {n: self.ov[n].my_peer.public_key.key_to_bin() for n in NODES}
+        self.channel: dict[str, CommunicationChannel] = {}
+        self.channel_consents: list = []      # (subject key, name, shown metadata) the attester's user accepted, in order
+        self.channel_hashes = 0
+        if m.cfg.get("channel"):
+            key = channel_key()
+            for name in ("T", "D"):
+                ws = AttestationSettings()
+                ws.working_directory = ":memory:"
+                wallet = self.sim.nodes[name].add_overlay(AttestationCommunity, ws)
+                self.channel[name] = self.sim.nodes[name].run(CommunicationChannel, wallet, self.ov[name])
+            self._hook_channels(key)
         self.keyname = {v: k for k, v in self.key.items()}
         self.addrname = {tuple(self.sim.nodes[n].address): n for n in NODES}
         self.slen = refm.sig_len(self.key["T"])
@@ -127,6 +162,38 @@ class W:
         self.cut = 0
         self.max_deliveries = 0
         self.counts = {"attest_sent": 0, "missing_response_nonempty": 0, "pingpong_cut": 0}
+
+    def _hook_channels(self, key) -> None:  # noqa: ANN001
+        """
+        (1) The subject's wallet hands out the fixture secret key instead of generating one.
+        (2) The reference learns the attribute hash of an accepted request at the moment the attester's wallet reports
+            it (AttestationCommunity calls its completion callback with the hash of the blob it just made); the
+            metadata of the consent record is what the user was SHOWN, never what the channel looks up later.
+        """
+        d_wallet = self.channel["D"].attestation_overlay
+        original_algorithm = d_wallet.get_id_algorithm
+
+        def algorithm_with_fixture_key(id_format: str):  # noqa: ANN202
+            algorithm = original_algorithm(id_format)
+            algorithm.generate_secret_key = lambda: key
+            return algorithm
+        d_wallet.get_id_algorithm = algorithm_with_fixture_key
+
+        t_channel = self.channel["T"]
+        library_callback = t_channel.on_attestation_complete
+
+        def completion_seen_by_reference(for_peer, attribute_name, attribute_hash, id_format, from_peer=None):  # noqa: ANN001, ANN202
+            subject = for_peer.public_key.key_to_bin()
+            for i, (c_key, c_name, c_md) in enumerate(self.channel_consents):
+                if c_key == subject and c_name == attribute_name:
+                    del self.channel_consents[i]
+                    padded = SHA1_PAD + attribute_hash if len(attribute_hash) == 20 else attribute_hash
+                    self.labels[padded] = ("h-channel", self.channel_hashes)
+                    self.channel_hashes += 1
+                    self.consent["T"].register(padded, attribute_name, subject, c_md, self.now())
+                    break
+            return library_callback(for_peer, attribute_name, attribute_hash, id_format, from_peer)
+        t_channel.attestation_overlay.set_attestation_request_complete_callback(completion_seen_by_reference)
 
     # -- helpers -----------------------------------------------------------------------------------------------------
     def now(self) -> float:
@@ -198,6 +265,10 @@ class Model(core.BfsModel):
             al += [("reqatt", s) for s in c["reqatt_subjects"]]
         if "remeta" in g:
             al += [("remeta", s) for s in c["req_subjects"]]
+        if "channel" in g:
+            al += [("creq", i) for i in range(len(CH_REQUEST_MD))]
+            al += [("cswap", i) for i in range(len(CH_SWAP_MD))]
+            al += [("cattest",)]
         if "dis" in g:
             al += [("dis", src, defect, att) for src in ("own", "other") for defect in DIS_DEFECTS for att in DIS_ATTS]
         self.alphabet = al
@@ -229,6 +300,16 @@ class Model(core.BfsModel):
                     continue
             elif kind == "remeta":
                 if not w.ov[ev[1]].metadata_chain:
+                    continue
+            elif kind == "creq":
+                # one channel request at a time: nothing outstanding at T, nothing pending at D
+                if w.channel["T"].attestation_requests or self._pending_at_subject(w):
+                    continue
+            elif kind == "cswap":
+                if not self._pending_at_subject(w):
+                    continue
+            elif kind == "cattest":
+                if not w.channel["T"].attestation_requests:
                     continue
             out.append(i)
         return out
@@ -269,6 +350,22 @@ class Model(core.BfsModel):
                 self._record_request(w, s, before, (0, 0, "self-attested"))
         elif kind == "dis":
             self._dishonest_disclosure(w, *ev[1:])
+        elif kind == "creq":
+            # D asks T for an attestation of attribute "n1" through its CommunicationChannel
+            self._use(w, 0, 0)
+            sim.nodes["D"].run(w.channel["D"].request_attestation, w.peer_of("D", "T"), CH_NAME, CH_FORMAT,
+                               dict(CH_REQUEST_MD[ev[1]]))
+        elif kind == "cswap":
+            # dishonest subject: the credential it is going to advertise carries other metadata than it asked for
+            ch = w.channel["D"]
+            ch.attestation_metadata[(ch.identity_overlay.my_peer, CH_NAME)] = dict(CH_SWAP_MD[ev[1]])
+        elif kind == "cattest":
+            # T's user looks at the outstanding request (peer, name, metadata as shown by the channel / REST) and accepts
+            ch = w.channel["T"]
+            (peer, name), (_future, shown) = next(iter(ch.attestation_requests.items()))
+            w.channel_consents.append((peer.public_key.key_to_bin(), name, json.loads(shown)))
+            sim.nodes["T"].run(ch.attest, peer, name, b"value")
+            sim.loop.settle()
         elif kind == "remeta":
             # the subject signs a SECOND Metadata object over its latest token (same hash, name, schema and extra
             # fields, other 'date') and discloses token chain + new metadata to T
@@ -312,6 +409,12 @@ class Model(core.BfsModel):
         return (kind, obs)
 
     # -- event helpers -----------------------------------------------------------------------------------------------
+    @staticmethod
+    def _pending_at_subject(w: W) -> bool:
+        """D's wallet still waits for the attestation blob of its request (the cache times out after a while)."""
+        wallet = w.channel["D"].attestation_overlay
+        return any(k.startswith("receive-request-attestation") for k in wallet.request_cache._identifiers)
+
     @staticmethod
     def _use(w: W, h: int, n: int) -> None:
         w.used_h = max(w.used_h, h + 1)
@@ -381,6 +484,25 @@ class Model(core.BfsModel):
             raise ValueError(atts)
         w.inject("D" if src == "own" else "B", "T",
                  w.pack("D", DisclosePayload(metadata, tokens, attestations, authorities)))
+
+    @staticmethod
+    def _record_new_credential(w: W, s: str, dg, msg: Msg) -> None:  # noqa: ANN001
+        """A real node disclosed a credential the bookkeeping has not seen (it was made inside the channel flow)."""
+        mds = refm.parse_metadata(msg.payload.metadata, w.slen)
+        if len(mds) != 1 or mds[0][1] in w.chain[s].tokens:
+            return
+        md_hash, pointer, js, _sig = mds[0]
+        idx = len(w.chain[s].tokens)
+        w.chain[s].created(pointer)
+        w.chain[s].open_to(w.key["T"])
+        w.disclosures[s].append(dg)
+        try:
+            fields = json.loads(js)
+            extras = tuple(sorted((k, v) for k, v in fields.items() if k not in refm.RESERVED))
+        except Exception:  # noqa: BLE001
+            extras = ("?",)
+        w.labels[pointer] = ("tok", s, idx, "channel")
+        w.labels[md_hash] = ("md", s, idx, "channel", extras)
 
     def _attest_event(self, w: W, variant: str) -> None:
         b = w.ov["B"]
@@ -456,6 +578,8 @@ class Model(core.BfsModel):
                 obs.append((sender, "other"))
                 continue
             to = w.addrname.get(tuple(dg.dst), "?")
+            if msg.msg_id == 1 and sender in w.disclosures and msg.key == w.key[sender]:
+                self._record_new_credential(w, sender, dg, msg)
             if msg.msg_id == 2:
                 w.counts["attest_sent"] += 1
                 att = refm.parse_attestation(msg.payload.attestation, w.slen)
@@ -524,6 +648,20 @@ class Model(core.BfsModel):
             out.append((n, table, tuple(toks), tuple(mds), tuple(atts), tuple(pseudonyms), own, addrs, ref))
         out.append(tuple((s, tuple(L(refm.parse_metadata(w.decode(dg.data).payload.metadata, w.slen)[0][0])
                                    for dg in w.disclosures[s])) for s in ("B", "D")))
+        for n, ch in sorted(w.channel.items()):
+            wallet = ch.attestation_overlay
+            out.append((
+                "channel", n,
+                tuple(sorted((kn(p.public_key.key_to_bin()), name, shown)
+                             for (p, name), (_f, shown) in ch.attestation_requests.items())),
+                tuple(sorted((kn(p.public_key.key_to_bin()), name, tuple(sorted(md.items())))
+                             for (p, name), md in ch.attestation_metadata.items())),
+                tuple(sorted(k.split(":")[0] for k in wallet.request_cache._identifiers)),
+                tuple(sorted((len(v)) for v in wallet.allowed_attestations.values())),
+                len(list(wallet.database.execute(f"SELECT 1 FROM {wallet.database.db_name}", fetch_all=True) or [])),  # noqa: S608
+                len(wallet.attestation_keys),
+            ))
+        out.append(tuple((kn(k), nm, tuple(sorted(md.items()))) for k, nm, md in w.channel_consents))
         return tuple(out)
 
     # -- oracle on stored state --------------------------------------------------------------------------------------
@@ -578,6 +716,10 @@ def configs(ctx: core.Ctx) -> list[tuple[Model, int]]:
     # dishonest disclosures: D holds (or gets) a registration for (h1, n1) and sends broken hand-made disclosures
     forged = _cfg(hashes=1, names=1, reg_keys=["D"], reg_md=[0], req_subjects=["D"], req_extra=[0], time=[],
                   groups=["dis"])
+    # consent route (b): D requests through its CommunicationChannel, T's user accepts the outstanding request it is shown;
+    # D may swap the metadata it advertises, replay, re-word the metadata, let the five minutes pass
+    channel = _cfg(hashes=1, names=1, reg_keys=[], reg_md=[], req_subjects=["D"], req_extra=[], time=[301],
+                   groups=["channel", "replay", "remeta"], max_replay=2, channel=True)
     full = _cfg()
     if ctx.thorough:
         return [
@@ -587,12 +729,14 @@ def configs(ctx: core.Ctx) -> list[tuple[Model, int]]:
             (Model("fields-2x2", _cfg(hashes=1, reg_keys=["B"], req_subjects=["B"], groups=["replay"]), s), 5),
             (Model("tokens", tokens, s), 5),
             (Model("forged", {**forged, "time": [301], "groups": ["dis", "replay"]}, s), 3),
+            (Model("channel", {**channel, "time": [299, 301], "max_replay": 3}, s), 6),
         ]
     return [
         (Model("subjects", subjects, s), 4),
         (Model("fields", fields, s), 4),
         (Model("tokens", tokens, s), 4),
         (Model("forged", forged, s), 3),
+        (Model("channel", channel, s), 5),
         (Model("full", full, s), 3),
     ]
 
@@ -727,6 +871,7 @@ def run(ctx: core.Ctx) -> core.Report:
     runs, violations, samples = [], [], []
     outcomes = 0
     seen_keys: set = set()
+    channel_key()      # before any world exists and before workers fork
     for model, depth in configs(ctx):
         r = bfs(model, depth, ctx.jobs)
         total_states += r["states"]
@@ -763,6 +908,7 @@ def run(ctx: core.Ctx) -> core.Report:
 def replay(ctx: core.Ctx, data: dict) -> list:
     m = Model(data["config"], data["cfg"], data["seed"])
     hist = [tuple(e) for e in data["history"]]
+    channel_key()
     seams.reseed(("bfs", m.seed))
     w = m.initial()
     out: list = []
